@@ -116,3 +116,21 @@ def path_where(prog: Program, qual: str, p: SymPath) -> str:
 
 def has_call_result(t: Any, suffix: str) -> bool:
     return any(isinstance(x, tuple) and len(x) == 3 and x[0] == "call" and str(x[2]).endswith(suffix) for x in subterms(t))
+
+
+def runner_raises(ev, cfg):
+    """standard fault model for path enumeration of a runner: the operation may raise an
+    ordinary exception or AbortRetryError, check_abort may raise AbortRetryError"""
+    if ev.kind == "call" and (ev.callback() == "operation" or ev.is_repo(":_call_with_timeout")) and not ev.awaited:
+        return ("OtherException", "AbortRetryError")
+    if ev.kind == "call" and ev.is_repo("_RetryState.check_abort"):
+        return ("AbortRetryError",)
+    if ev.kind == "await" and ("func()" in ev.label):
+        return ("OtherException", "AbortRetryError")
+    return ()
+
+
+def runner_paths(prog, name: str):
+    from ..ctx import engine
+
+    return engine(prog).paths(prog.func(RUNNERS[name]), raises=runner_raises, key="runner")
